@@ -192,6 +192,14 @@ class AccountingMonitor(Monitor):
         self.trades = {}
         self.pre = None
         self.placed_trades = {}  # (strategy, lookup) -> ordered set of trade ids charged through an executed placement/adoption
+        self.in_exec = 0
+
+    def on_exec_before(self, pkg):
+        self.in_exec += 1
+
+    def on_order_created(self, order):
+        # replacement orders are created by the execution layer, everything else by the strategy
+        order._by_execution = self.in_exec > 0
 
     def _ctx(self, strategy, lookup):
         return strategy._invested.get(lookup)
@@ -275,7 +283,18 @@ class AccountingMonitor(Monitor):
                 if o.trade not in trades:
                     trades.append(o.trade)
             in_handler = any(t.status.name == "PENDING" for t in trades)
-            exp_live = [t.id for t in trades if any(not o.complete for o in t.orders if o.id in market.blotter)]
+            def holds(t):
+                # an order of the trade that is at the exchange and not complete, or one the strategy has created on the
+                # trade and not placed yet (it keeps the trade open by design), holds the trade live
+                for o in t.orders:
+                    if o.id in market.blotter:
+                        if not o.complete:
+                            return True
+                    elif o.status is None and not getattr(o, "_by_execution", False):
+                        return True
+                return False
+
+            exp_live = [t.id for t in trades if holds(t)]
             site = None
             got_live = list(ctx.live_trades)
             if sorted(got_live) != sorted(exp_live):
@@ -289,13 +308,13 @@ class AccountingMonitor(Monitor):
                 self.violate(self.P, "C10.live", site, strategy=strategy.name, lookup=list(lookup), live_trades=len(got_live), expected=len(exp_live), where=where, orders=[(o._vid, o.status.name if o.status else None, o.complete) for o in orders], trade_status=[t.status.name for t in trades])
             if ctx.trade_count != len(trades) or len(set(ctx.trades)) != len(ctx.trades):
                 self.violate(self.P, "C10.count", "trade_count", trade_count=ctx.trade_count, distinct_trades=len(trades), where=where)
-            if all(o.complete for o in orders) and ctx.live_trade_count != 0:
+            if all(o.complete for o in orders) and not any(holds(t) for t in trades) and ctx.live_trade_count != 0:
                 self.violate(self.P, "C10.not-locked", site or "all-orders-complete-but-live-trades", strategy=strategy.name, lookup=list(lookup), live_trade_count=ctx.live_trade_count, where=where)
             for t in trades:
                 if t.pending_orders:
                     continue
                 all_c = all(o.complete for o in t.orders)
-                blotter_c = all(o.complete for o in t.orders if o.id in market.blotter)
+                blotter_c = not holds(t)
                 stn = t.status.name
                 if stn == "PENDING":
                     self.violate(self.P, "C10.complete-iff", "trade-pending-outside-handler", trade_orders=[o._vid for o in t.orders], where=where)
@@ -317,6 +336,7 @@ class AccountingMonitor(Monitor):
                 self.audit(market, "handler_step_end")
 
     def on_exec_after(self, pkg):
+        self.in_exec = max(0, self.in_exec - 1)
         for o in pkg._orders:
             resp = o.responses.place_response
             if pkg.package_type.name == "PLACE" and resp is not None and getattr(resp, "status", None) == "FAILURE":
